@@ -12,6 +12,8 @@ import YtkModel.Overlay
 import YtkProofs.FuncsLemmas
 import YtkProofs.FuncsDomDiff
 import YtkProofs.FuncsDomEquals
+import YtkProofs.FuncsDomMerge
+import YtkProofs.MergeRel
 
 set_option linter.unusedSimpArgs false
 
@@ -300,5 +302,93 @@ theorem overlayLookupAny_generated_eq_model (s : Overlay) (ov : GoDom.ContMap) (
 
 /-- the model's own list of pairs is such a Go map (the lookup is a linear search) -/
 theorem rep_self (s : Overlay) : Rep s s := fun _ => rfl
+
+/-! ## mergeOverlay: what `Merged()` runs — a fold of `mergeContainers` over the layers in `names` order -/
+
+open FuncsDomMerge in
+theorem mergeOverlay_loop_eq (o : ListStrategy) (f : List Node → List Node → Go.Res (List Node)) (M : Nat)
+    (hf : ListFnOk o f M) (doc : FuncsDom.dom_overlayDocument) : ∀ (ns : List String) (merged : AMap Node),
+    (∀ n ∈ ns, ∃ c, GoDom.contMapGet doc.overlays n = some c ∧ (Node.cont c).WF ∧ Node.sizeKvs c ≤ M) →
+    (Node.cont merged).WF →
+    FuncsDom.mergeOverlay_loop1 f (some doc) ns merged =
+      .ok (ns.foldl (fun acc n => mergeKvs o acc ((GoDom.contMapGet doc.overlays n).getD [])) merged) := by
+  intro ns
+  induction ns with
+  | nil => intro merged _ _; rfl
+  | cons n rest ih =>
+    intro merged hl hw
+    obtain ⟨c, hc, hwc, hsz⟩ := hl n (List.mem_cons_self ..)
+    have hm := mergeContainers_generated_eq_model o f merged c (listFnOk_mono hf hsz) hw hwc
+    simp only [FuncsDom.mergeOverlay_loop1, Go.deref, Go.Res.ok_bind, hc, hm, List.foldl_cons, Option.getD_some]
+    exact ih _ (fun n' hn' => hl n' (List.mem_cons_of_mem _ hn')) (wf_mergeC o hw hwc)
+
+open FuncsDomMerge in
+/-- merger.mergeOverlay(m) over the Go state of an overlay document whose map holds a well-formed layer for every name -/
+theorem mergeOverlay_generated_fold (o : ListStrategy) (f : List Node → List Node → Go.Res (List Node)) (M : Nat)
+    (hf : ListFnOk o f M) (doc : FuncsDom.dom_overlayDocument)
+    (hl : ∀ n ∈ doc.names, ∃ c, GoDom.contMapGet doc.overlays n = some c ∧ (Node.cont c).WF ∧ Node.sizeKvs c ≤ M) :
+    FuncsDom.mergeOverlay f (some doc) =
+      .ok (doc.names.foldl (fun acc n => mergeKvs o acc ((GoDom.contMapGet doc.overlays n).getD [])) []) := by
+  simp only [FuncsDom.mergeOverlay, GoDom.newContainer, Go.deref, Go.Res.ok_bind,
+    mergeOverlay_loop_eq o f M hf doc doc.names [] hl (.cont .nil (by intro p hp; cases hp)), Go.Res.pure_eq]
+
+theorem layers_of_nodup : ∀ (s : Overlay), (Overlay.layerNames s).Nodup →
+    s.map (fun p => Overlay.layer s p.1) = s.map (fun p => some p.2) := by
+  intro s
+  induction s with
+  | nil => intro _; rfl
+  | cons q rest ih =>
+    intro hn
+    obtain ⟨n, d⟩ := q
+    simp only [Overlay.layerNames, List.map_cons, List.nodup_cons] at hn
+    simp only [List.map_cons, Overlay.layer, AMap.get?, if_true, List.cons.injEq, true_and]
+    have := ih hn.2
+    simp only [Overlay.layer] at this
+    rw [← this]
+    apply List.map_congr_left
+    intro p hp
+    have hne : p.1 ≠ n := by
+      intro e
+      exact hn.1 (by simp only [List.mem_map]; exact ⟨p, hp, e⟩)
+    simp [hne]
+
+open FuncsDomMerge in
+/-- … and against the model's `Merged`: for an overlay document with distinct layer names (the invariant of
+    `ensureOverlay`) whose layers are well-formed, `mergeOverlay` over its Go state is `Overlay.merged` -/
+theorem mergeOverlay_generated_eq_model (o : ListStrategy) (f : List Node → List Node → Go.Res (List Node)) (M : Nat)
+    (hf : ListFnOk o f M) (s : Overlay) (ov : GoDom.ContMap) (hr : Rep s ov)
+    (hnd : (Overlay.layerNames s).Nodup) (hw : ∀ p ∈ s, (Node.cont p.2).WF ∧ Node.sizeKvs p.2 ≤ M) :
+    FuncsDom.mergeOverlay f (some ⟨Overlay.layerNames s, ov⟩) = .ok (Overlay.merged o s) := by
+  have hlay := layers_of_nodup s hnd
+  have hl : ∀ n ∈ Overlay.layerNames s, ∃ c, GoDom.contMapGet ov n = some c ∧ (Node.cont c).WF ∧ Node.sizeKvs c ≤ M := by
+    intro n hn
+    simp only [Overlay.layerNames, List.mem_map] at hn
+    obtain ⟨p, hp, rfl⟩ := hn
+    have h1 : (s.map (fun p => Overlay.layer s p.1)) = s.map (fun p => some p.2) := hlay
+    have h2 : Overlay.layer s p.1 = some p.2 := by
+      have := List.map_inj_left.mp h1 p hp
+      exact this
+    exact ⟨p.2, by rw [hr p.1, h2], hw p hp⟩
+  rw [mergeOverlay_generated_fold o f M hf ⟨Overlay.layerNames s, ov⟩ hl]
+  simp only [Overlay.merged, mergeAll, Overlay.layerNames]
+  congr 1
+  rw [List.foldl_map]
+  have e : ∀ p ∈ s, (GoDom.contMapGet ov p.1).getD [] = p.2 := by
+    intro p hp
+    have := List.map_inj_left.mp hlay p hp
+    rw [hr p.1, this]; rfl
+  clear hl hlay hw hnd
+  -- both folds run over `s`; the looked-up layer is the stored one
+  have : ∀ (l : List (String × AMap Node)) (acc : AMap Node), (∀ p ∈ l, (GoDom.contMapGet ov p.1).getD [] = p.2) →
+      List.foldl (fun acc p => mergeKvs o acc ((GoDom.contMapGet ov p.1).getD [])) acc l
+        = List.foldl (mergeKvs o) acc (l.map (·.2)) := by
+    intro l
+    induction l with
+    | nil => intro acc _; rfl
+    | cons q rest ih =>
+      intro acc hq
+      simp only [List.foldl_cons, List.map_cons, hq q (List.mem_cons_self ..)]
+      exact ih _ (fun p hp => hq p (List.mem_cons_of_mem _ hp))
+  exact this s [] e
 
 end Ytk.FuncsDomOverlay
